@@ -23,6 +23,7 @@ with nothing outside 'g', liquid/solid-locked chemicals with nothing in 'g'
 (after a vapour-liquid calculation); frame: phases that the calculation does not
 own are unchanged.  Calls that raise are outside the property ("returns normally").
 """
+import os
 import sys
 import itertools
 import numpy as np
@@ -32,6 +33,9 @@ from thermosteam.exceptions import InfeasibleRegion, NoEquilibrium
 from thermosteam.mixture.mixture import Mixture
 from engine.api import group, CheckAbort
 from engine.sx import tmo_world as W
+
+# proofs go to a fresh one-shot solver first (engine/sx/sym.py: measured 100x faster on the nonlinear (z/F - m)*F + m*F = z VCs)
+os.environ.setdefault('VERIF_PROVE_FRESH_MS', '5000')
 
 vle_mod = sys.modules['thermosteam.equilibrium.vle']
 lle_mod = sys.modules['thermosteam.equilibrium.lle']
@@ -467,6 +471,8 @@ def solve_v_clip(w, cfg):
             vle._setup()
         except NoEquilibrium:
             return
+        if vle._N == 0 or vle._N == 1:
+            return      # _solve_v is only used with two or more components (N >= 2)
         after_setup = flows_now(s)
         T = w.real('T', lo=0., lo_strict=True)
         P = w.real('P', lo=0., lo_strict=True)
@@ -529,6 +535,8 @@ def vle_err_callbacks(w, cfg):
             vle._setup()
         except NoEquilibrium:
             return
+        if vle._N == 0 or vle._N == 1:
+            return      # the callbacks are only used with two or more components (N >= 2)
         vle._T = w.real('T', lo=0., lo_strict=True)
         vle._P = w.real('P', lo=0., lo_strict=True)
         arg = w.real('arg', lo=0., lo_strict=True)
@@ -570,9 +578,14 @@ def install_lle_stubs(env):
     def solve_lle_liquid_mol(self, mol, T, lle_chemicals, single_loop):
         env.count('solve_lle')
         out = []
+        interior = env.cfg.get('modes', ['any'])[min(env.calls['solve_lle'], len(env.cfg.get('modes', ['any']))) - 1] == 'int'
         for i in range(len(lle_chemicals)):
-            v = env.leaf(f'molL{i}', lo=0.)
-            w.assume(w.le(v, mol[i]))
+            if interior:     # strictly inside the box: no entry of either phase vanishes (keeps multi-call configurations small)
+                v = env.leaf(f'molL{i}', lo=0., lo_strict=True)
+                w.assume(w.lt(v, mol[i]))
+            else:
+                v = env.leaf(f'molL{i}', lo=0.)
+                w.assume(w.le(v, mol[i]))
             out.append(v)
         return env.arr(out)
 
@@ -586,25 +599,27 @@ def install_lle_stubs(env):
 
 def lle_configs(tier):
     out = []
+    # modes: one entry per call of the (havoc'ed) solver: 'any' = anywhere in the box, 'int' = strictly inside
     fam = [
-        ('WO', 'lL', {'W': '+?', 'O': '?+'}, None, 1),
-        ('WO', 'lL', {'W': '++', 'O': '++'}, 'Octane', 1),
-        ('WO', 'lL', {'W': '+0', 'O': '0+'}, 'Water', 2),
-        ('WO', 'glL', {'W': '++?', 'O': '?0+'}, None, 1),
-        ('WOG', 'lL', {'W': '+0', 'O': '0+', 'G': '?+'}, 'Octane', 1),
-        ('WN', 'lL', {'W': '+?', 'N': '?+'}, None, 1),          # fewer than 2 LLE chemicals: everything pooled in one phase
-        ('W', 'lL', {'W': '??'}, None, 1),
+        ('WO', 'lL', {'W': '+?', 'O': '?+'}, None, ['any']),
+        ('WO', 'lL', {'W': '++', 'O': '++'}, 'Octane', ['any']),
+        ('WO', 'lL', {'W': '+0', 'O': '0+'}, 'Water', ['int', 'any']),     # second call: cached branch or solver branch
+        ('WO', 'glL', {'W': '++?', 'O': '?0+'}, None, ['any']),
+        ('WOG', 'lL', {'W': '+0', 'O': '0+', 'G': '0+'}, 'Octane', ['any']),
+        ('WN', 'lL', {'W': '+?', 'N': '?+'}, None, ['any']),          # fewer than 2 LLE chemicals: everything pooled in one phase
+        ('W', 'lL', {'W': '??'}, None, ['any']),
     ]
     if tier == 'thorough':
         fam += [
-            ('WO', 'lL', {'W': '??', 'O': '??'}, 'Octane', 2),
-            ('WEO', 'lL', {'W': '+?', 'E': '++', 'O': '?+'}, 'Octane', 1),
-            ('WEO', 'lL', {'W': '+0', 'E': '+0', 'O': '0+'}, None, 2),
-            ('WOG', 'glL', {'W': '++?', 'O': '?0+', 'G': '0?+'}, 'Water', 2),
+            ('WO', 'lL', {'W': '??', 'O': '??'}, 'Octane', ['any']),
+            ('WO', 'lL', {'W': '+?', 'O': '?+'}, 'Octane', ['any', 'any']),
+            ('WEO', 'lL', {'W': '+?', 'E': '++', 'O': '?+'}, 'Octane', ['any']),
+            ('WEO', 'lL', {'W': '+0', 'E': '+0', 'O': '0+'}, None, ['int', 'any']),
+            ('WOG', 'glL', {'W': '++?', 'O': '?0+', 'G': '0?+'}, 'Water', ['any']),
         ]
-    for keys, phases, d, top, calls in fam:
-        out.append({'name': f'{keys}/{phases}/{_dist_name(d, keys)}/top={top}/calls={calls}', 'pkg': keys, 'phases': phases,
-                    'dist': d, 'top': top, 'calls': calls})
+    for keys, phases, d, top, modes in fam:
+        out.append({'name': f'{keys}/{phases}/{_dist_name(d, keys)}/top={top}/calls={"+".join(modes)}', 'pkg': keys, 'phases': phases,
+                    'dist': d, 'top': top, 'calls': len(modes), 'modes': modes})
     return out
 
 
@@ -631,6 +646,10 @@ def lle(w, cfg):
                 w.note(outcome=type(e).__name__)
                 return
             now = ensure_material(w, s, before, keys, owned=('l', 'L'), vle=False, tag=f'call {n}: ')
+            if n + 1 < cfg['calls'] and lle_obj._K is not None:
+                # the cached partition coefficients are x_L/x_l of the previous result: some vector >= 0.  Generalise them to
+                # ANY vector >= 0 (weaker requirement, and keeps the second call's terms from nesting the first call's ratios)
+                lle_obj._K = env.arr([env.leaf(f'K{i}', lo=0.) for i in range(len(lle_obj._K))])
         k0 = chem(keys[0]).ID
         w.canary('canary: l flow of first chemical unchanged + 1', w.eq(now['l', k0], before.get(('l', k0), 0.) + 1))
         w.note(calls=dict(env.calls), flows=now)
